@@ -7,14 +7,17 @@ EXTENDS Naturals, Sequences, TLC, Json, IOUtils
 
 C == INSTANCE WireClient
 S == INSTANCE WireServer
-N == INSTANCE WireNla
+N == INSTANCE WireNla WITH Strict <- TRUE
+NL == INSTANCE WireNla WITH Strict <- FALSE
 
 Blobs == ndJsonDeserialize(IOEnv.BLOBS)
 
 DecodeOne(x) ==
   IF x.side = "c" THEN C!DecClient(x.b)
   ELSE IF x.side = "s" THEN S!DecServer(x.b)
-  ELSE IF x.side \in {"d", "e"} THEN N!DecTsRequest(x.b)      \* CredSSP TSRequest (client / server)
+  ELSE IF x.side = "d" THEN N!DecTsRequest(x.b)               \* CredSSP TSRequest from the client: strict DER
+  ELSE IF x.side = "e" THEN                                   \* ... from the server: strict, and what a lenient BER reader sees
+       LET s == N!DecTsRequest(x.b) IN IF s.ok THEN s ELSE [ok |-> FALSE, why |-> s.why, lenient |-> NL!DecTsRequest(x.b)]
   ELSE [ok |-> TRUE, kind |-> "raw"]
 
 VARIABLE done
